@@ -402,7 +402,17 @@ func runC13(w *World, r *Report, tier string) {
 	} else {
 		rc := rcalls[0].(*ssa.Call)
 		isRC := func(in ssa.Instruction) bool { return in == ssa.Instruction(rc) }
-		isWait := w.isCallTo("xmpp.backoff.wait")
+		// the back-off wait: backoff.wait(), or a sleep for a delay the backoff computed
+		isWait := func(in ssa.Instruction) bool {
+			if w.isCallTo("xmpp.backoff.wait")(in) {
+				return true
+			}
+			if c := asCall(in); c != nil && w.callKey(c) == "time.Sleep" {
+				nfv := w.nf(c.Common().Args[0], 0)
+				return strings.Contains(nfv, "xmpp.backoff.durationForAttempt(") || strings.Contains(nfv, "xmpp.backoff.duration(")
+			}
+			return false
+		}
 		isPC := func(in ssa.Instruction) bool { return isDynCallOfField(in, w.Field("xmpp.StreamManager.PostConnect")) }
 		fPerm := w.Field("xmpp.ConnError.Permanent")
 		bad := ""
